@@ -1,7 +1,7 @@
 """C20 - ARM/RISC-V build attributes and ARM unwind tables are decoded exactly."""
 from symx.api import H
 from spec import enc, ehabi
-from harness.elfkit import stream_length, elf_object, shdr, phdr
+from harness.elfkit import stream_length, elf_object, shdr, phdr, open_elf
 
 PROPERTY = 'C20'
 ASSUMPTIONS = [
@@ -318,7 +318,7 @@ def h_file_entry_points(ctx):
     o = img.blob([0])
     img.section('.text', sh_type=1, sh_offset=o, sh_size=1)
     img.add_shstrtab()
-    elf = EF.ELFFile(ctx.stream(img.build()))
+    elf = open_elf(ctx, img.build())
     ctx.outcome('ok')
     ctx.check_eq('file/has_ehabi_info', bool(elf.has_ehabi_info()), k > 0)
     infos = elf.get_ehabi_infos()
